@@ -41,6 +41,8 @@ const FAULT_KINDS: &[&str] = &[
   "same_module_twice_in_batch",
   "edit_then_undo",
   "dependency_broken_then_healed",
+  "garbled_many",
+  "placeholder_names",
 ];
 
 struct FaultPlan {
@@ -64,6 +66,12 @@ impl FaultPlan {
     } else if self.on("garbled_document", 1, 10) {
       self.fired.inc("garbled_document");
       gen::garbled(&mut self.rng, &text)
+    } else if self.on("garbled_many", 1, 12) {
+      self.fired.inc("garbled_many");
+      gen::garbled_many(&mut self.rng, &text)
+    } else if self.on("placeholder_names", 1, 8) {
+      self.fired.inc("placeholder_names");
+      gen::placeholders(&mut self.rng, &text)
     } else if self.on("ill_typed_edit", 1, 8) {
       self.fired.inc("ill_typed_edit");
       gen::ill_typed(&mut self.rng, &text)
